@@ -11,7 +11,8 @@ use crate::rm::decide::{Stage, Verdict};
 use crate::rm::lower;
 use crate::run::{finish, preflight, Ctx, Report, Tally, Tier};
 
-pub const NEUTRAL: [&str; 8] = [
+pub const NEUTRAL: [&str; 9] = [
+    "long-inner-space-run",
     "name-case",
     "reorder-different-names",
     "outer-spaces",
@@ -21,7 +22,10 @@ pub const NEUTRAL: [&str; 8] = [
     "alter-unsigned-header",
     "duplicate-unsigned-header",
 ];
-pub const BINDING: [&str; 11] = [
+pub const BINDING: [&str; 14] = [
+    "remove-signed-header",
+    "managed-value-edit",
+    "host-port-or-dot",
     "append-tab",
     "prepend-tab",
     "tab-between-edge-spaces",
@@ -101,6 +105,72 @@ fn child(kind: &str, r: &mut Rng, parent: &Case, signed: &[String]) -> Option<Ca
             for _ in 0..n {
                 h[i].1.insert(p, b' ');
             }
+        }
+        "long-inner-space-run" => {
+            // runs of 5, 8, 17, 33, 64 spaces (a collapse applied a fixed number of times, or a chunked fast path, shows)
+            let cands: Vec<usize> = signed_any.iter().copied().filter(|i| h[*i].1.windows(3).any(|w| w[0] != b' ' && w[1] == b' ' && w[2] != b' ')).collect();
+            if cands.is_empty() {
+                return None;
+            }
+            let i = *r.pick(&cands);
+            let ps: Vec<usize> = (1..h[i].1.len() - 1).filter(|p| h[i].1[*p] == b' ' && h[i].1[*p - 1] != b' ' && h[i].1[*p + 1] != b' ').collect();
+            let p = *r.pick(&ps);
+            let n = *r.pick(&[4usize, 7, 16, 32, 63, 200]);
+            for _ in 0..n {
+                h[i].1.insert(p, b' ');
+            }
+        }
+        "remove-signed-header" => {
+            // every line of one signed name disappears (its value may have been empty or blank: it still was a signed header)
+            if signed_extra.is_empty() {
+                return None;
+            }
+            let name = lower(&h[*r.pick(&signed_extra)].0);
+            h.retain(|(n, _)| lower(n) != name);
+        }
+        "managed-value-edit" => {
+            // the headers the verifier itself consults are bound like any other signed header
+            let cands: Vec<usize> = signed_any.iter().copied().filter(|i| is_managed(&lower(&h[*i].0)) && !matches!(lower(&h[*i].0).as_str(), "x-amz-date" | "date")).collect();
+            if cands.is_empty() {
+                return None;
+            }
+            let i = *r.pick(&cands);
+            match r.below(3) {
+                0 => h[i].1.push(b'x'),
+                1 if !h[i].1.is_empty() => {
+                    let p = r.usize_below(h[i].1.len());
+                    if h[i].1[p] == b' ' {
+                        return None;
+                    }
+                    h[i].1[p] = if h[i].1[p] == b'q' {
+                        b'r'
+                    } else {
+                        b'q'
+                    };
+                }
+                _ => {
+                    let line = (h[i].0.clone(), b"second".to_vec());
+                    let pos = r.usize_below(h.len() + 1);
+                    h.insert(pos, line);
+                }
+            }
+        }
+        "host-port-or-dot" => {
+            // Host with and without a default port or a trailing dot are different values
+            let i = (0..h.len()).find(|i| lower(&h[*i].0) == "host")?;
+            let v = String::from_utf8_lossy(&h[i].1).trim().to_string();
+            let nv = if let Some(x) = v.strip_suffix(":443") {
+                x.to_string()
+            } else if let Some(x) = v.strip_suffix(":80") {
+                x.to_string()
+            } else if let Some(x) = v.strip_suffix('.') {
+                x.to_string()
+            } else if v.contains(':') {
+                return None;
+            } else {
+                format!("{}{}", v, r.pick(&[":443", ":80", "."]))
+            };
+            h[i].1 = nv.into_bytes();
         }
         "add-unsigned-header" => {
             let name = format!("x-verif-unsigned-{}", r.below(4));
@@ -272,7 +342,13 @@ fn shard(seed: u64, shard: u64, n: u64) -> Tally {
         };
         let mut l = gen_logical(&mut r, &cfg, &o);
         // values with inner spaces and repeated names are what this property is about
+        let blank_one = r.chance(1, 8);
         for (k, (_, vals)) in l.extra.iter_mut().enumerate() {
+            if k == 1 && blank_one {
+                // a signed header whose value is empty or blank is still a signed header
+                vals[0] = r.pick_bytes(&[b"", b" ", b"   "]).to_vec();
+                continue;
+            }
             if k % 2 == 0 {
                 vals[0] = b"alpha beta gamma".to_vec();
             }
@@ -340,6 +416,18 @@ fn shard(seed: u64, shard: u64, n: u64) -> Tally {
                     Agreement::Silent(w) => t.count(&format!("silent: {}", w)),
                     Agreement::Agree => {
                         if neutral {
+                            // a neutral change leaves everything the provider is asked, and whom the caller is told it was, as it was
+                            let calls = |rc: &crate::exec::Record| -> Vec<crate::exec::Ev> { rc.events.iter().filter(|e| matches!(e, crate::exec::Ev::Call { .. })).cloned().collect() };
+                            if calls(&rec) != calls(&prec) {
+                                t.violate(violation("header-neutral", &format!("{}/provider-arguments", kind), format!("neutral change '{}' changed what the key provider was asked: {:?} → {:?}", kind, calls(&prec), calls(&rec)), &c, None));
+                                continue;
+                            }
+                            if let (Outcome::Ok(a), Outcome::Ok(b)) = (&prec.outcome, &rec.outcome) {
+                                if a.principal != b.principal || a.session != b.session {
+                                    t.violate(violation("header-neutral", &format!("{}/identity", kind), format!("neutral change '{}' changed the returned identity", kind), &c, None));
+                                    continue;
+                                }
+                            }
                             if matches!(j.analysis.verdict, Verdict::Accept) {
                                 t.count(&format!("neutral_accepted/{}", kind));
                                 t.nontrivial(c.hash());
@@ -376,7 +464,7 @@ pub fn run(tier: Tier) -> i32 {
     }
     let rep = Report {
         level: "exploration",
-        rule: "W-sign parents with up to 8 extra headers (visible ASCII, 0x80–0xFF, inner spaces, repeated names with 2–4 values) and random signed subsets; children by one wire-level change: neutral (name letter case, order between different names, outer spaces / longer inner space runs in signed values, unsigned-unrequired-unconsulted headers added / removed / altered / duplicated) — must stay accepted; binding (a byte of a signed value, appended byte, swap of two values of one signed name, dropped or duplicated value, a space moved into a token, an inner space removed, TAB for space) — must be refused. Two oracles: the parent/child relation (model-free) and the reference header block. Non-trivial = neutral child accepted / binding child refused with the signature-mismatch class; distinct by case hash.".into(),
+        rule: "W-sign parents with up to 8 extra headers (visible ASCII, 0x80–0xFF, inner spaces, repeated names with 2–4 values) and random signed subsets; children by one wire-level change: neutral (name letter case, order between different names, outer spaces / longer inner space runs (up to 200 spaces) in signed values, unsigned-unrequired-unconsulted headers added / removed / altered / duplicated) — must stay accepted; binding (every line of a signed header removed — also when its value was empty or blank —, a byte / an extra line of a signed Host, Content-Type or token header, Host with or without a default port or trailing dot, a byte of a signed value, appended byte, swap of two values of one signed name, dropped or duplicated value, a space moved into a token, an inner space removed, TAB for space) — must be refused. Two oracles: the parent/child relation (model-free; for neutral children also the provider's call arguments and the returned identity must equal the parent's) and the reference header block. Non-trivial = neutral child accepted / binding child refused with the signature-mismatch class; distinct by case hash.".into(),
         assumptions: vec!["'spaces' means 0x20 exactly; TAB is an ordinary value byte (DESIGN §6)".into()],
         extra: J::obj().set("calibrated_vectors", J::i(pre.unwrap_or(0) as i64)),
     };
